@@ -3,6 +3,7 @@ From Coq Require Import Permutation.
 From DoitV Require Import Base Dispatch Runner Parallel DispatchP DispatchInv RunnerTr RunnerP ParallelP OutcomeP.
 From DoitV Require Import AncP HoldP CompleteP TermP LiveP OutcomeSpec OutcomeFunP OutcomeInvP OutcomeSerialP OutcomeParP OutcomeLiveP.
 From DoitV Require Import ParStepP ParLiveP ParTermP ParOutcomeLiveP ParLiveEx.
+From DoitV Require Import WholeOutcomeP WholeOutcomeEx.
 Open Scope N_scope.
 
 (* The exit code is a function of the multiset of failure kinds that were reported: whatever order
@@ -58,9 +59,9 @@ Print Assumptions C08_same_reports_same_exit_code.
 (* The parallel runners start a task's actions under exactly the serial conditions: once, after every
    declared dependency ended well (C02_exec_once_parallel, C05_contained_parallel), and report each task
    at most once (C02_one_final_report_parallel); every failure is removed from the DB before it is
-   reported (C05_failure_removed_parallel).  NOT PROVED: that the SET of per-task outcomes of a
-   parallel run equals that of the serial run when neither is cut short (needs liveness, C09, and the
-   converse of the `recd` invariant); decided by harness/c08.py on real runs. *)
+   reported (C05_failure_removed_parallel).  That the SET of per-task outcomes of a parallel run
+   EQUALS that of the serial run when neither is cut short is proved at the end of this file
+   (C08_parallel_serial_same_whole_outcome). *)
 
 Example C08_nonvacuous :
   code_of [EFailure 1 0; EFailure 2 2; EFailure 3 0] = 2 /\ code_of [EFailure 3 0; EFailure 1 0; EFailure 2 2] = 2 /\
@@ -152,9 +153,8 @@ Theorem C08_outcome_function_sound :
 Proof. exact fin_fun_sound. Qed.
 Print Assumptions C08_outcome_function_sound.
 
-(* NOT PROVED: liveness of the PARALLEL runners (that a parallel run which is not cut short reports every
-   selected task); with it the set of per-task outcomes of a parallel run would EQUAL that of the serial
-   run.  What is proved: the two can never DISAGREE on a task, and the serial run is complete. *)
+(* liveness of the PARALLEL runners and the equality of the whole outcome: further down
+   (C08_parallel_acyclic_right_outcome, C08_parallel_serial_same_final_reports, C08_parallel_serial_same_whole_outcome). *)
 
 (* non-vacuity: calc_dep task 1 fails in save_success (values visible), the task_dep it returns is ignored:
    task 0 is reported ignored -- by the serial run and by a 2-worker parallel run *)
@@ -217,3 +217,84 @@ Example C08_parallel_whole_outcome_nonvacuous :
   In (PE (EFailure 0 kind_unmet)) (fst par) /\ In (EFailure 0 kind_unmet) (fst ser) /\
   In (PE (EFailure 3 kind_unmet)) (fst par) /\ In (EFailure 3 kind_unmet) (fst ser).
 Proof. exact par_outcome_nonvacuous. Qed.
+
+(* ===== the WHOLE outcome (Proofs/WholeOutcomeP.v) ===== *)
+(* WHICH tasks a run reports is specified by the task table alone.  [active tasks always selection x]
+   (Proofs/WholeOutcomeP.v; no dispatcher, runner, schedule, oracle or fuel occurs in it):
+     x is selected, or
+     x is an effective task_dep / calc_dep of an active task t -- OutcomeSpec.vdep under an assignment that gives
+       every effective dependency of t its specified outcome [fin]: what a calc_dep task returns counts only if
+       its values are visible --, or
+     x is a setup-task of an active task whose first-selection verdict (OutcomeSpec.first) is `run`.
+   In ANY serial run that reported every selected task -- any table, cyclic or not, any fuel, any oracles,
+   --continue or not -- a task has a final report IF AND ONLY IF it is active ... *)
+Theorem C08_serial_reported_iff_active :
+  forall tasks always selection wake_rank calc_rank continue_ fuel,
+  let res := run_serial tasks wake_rank calc_rank continue_ always fuel selection in
+  (forall x, In x selection -> finished_in (fst res) x) ->
+  forall x, finished_in (fst res) x <-> active tasks always selection x.
+Proof. exact serial_reported_iff_active. Qed.
+Print Assumptions C08_serial_reported_iff_active.
+
+(* ... and so it is in any parallel run (threads or processes, any worker count, EVERY schedule) *)
+Theorem C08_parallel_reported_iff_active :
+  forall tasks always selection wake_rank calc_rank continue_ proc fuel nprocs sched,
+  let res := run_parallel tasks wake_rank calc_rank continue_ always proc fuel nprocs sched selection in
+  (forall x, In x selection -> pfinished (fst res) x) ->
+  forall x, pfinished (fst res) x <-> active tasks always selection x.
+Proof. exact parallel_reported_iff_active. Qed.
+Print Assumptions C08_parallel_reported_iff_active.
+
+(* Hence: a parallel and a serial run over the same table and selection that both reported every selected task
+   made the same final reports about EVERY task, selected or not (same reporter call, same failure kind), the
+   reported tasks being exactly the active ones; and if both ended normally (exit code 0, 1, 2) the exit codes
+   are equal (the exit code is a function of the SET of failure reports) *)
+Theorem C08_parallel_serial_whole_outcome_gen :
+  forall tasks always selection wr1 cr1 co1 proc fuel1 nprocs sched wr2 cr2 co2 fuel2,
+  let par := run_parallel tasks wr1 cr1 co1 always proc fuel1 nprocs sched selection in
+  let ser := run_serial tasks wr2 cr2 co2 always fuel2 selection in
+  (forall x, In x selection -> pfinished (fst par) x) -> (forall x, In x selection -> finished_in (fst ser) x) ->
+  (forall x e, is_final_ev x e = true -> (In (PE e) (fst par) <-> In e (fst ser))) /\
+  (forall x, active tasks always selection x <-> exists e, is_final_ev x e = true /\ In (PE e) (fst par) /\ In e (fst ser)) /\
+  (snd par <= 2 -> snd ser <= 2 -> snd par = snd ser).
+Proof. exact parallel_serial_whole_outcome_gen. Qed.
+Print Assumptions C08_parallel_serial_whole_outcome_gen.
+
+(* C08, THE WHOLE OUTCOME, parallel = serial: same finite acyclic table and selection, --continue, enough fuel,
+   >= 1 worker, every schedule / flavour / set-iteration oracles: unless an action interrupts one of the runs
+   (exit code 4), the final reports are the same events for EVERY task (selected or not), the tasks reported are
+   in both runs exactly the active ones, and the exit codes are equal (0, 1 or 2) *)
+Theorem C08_parallel_serial_same_whole_outcome :
+  forall tasks univ sel, finite_table tasks univ -> (forall k, ~ reach tasks k k) ->
+  forall wr1 cr1 wr2 cr2 always proc nprocs sched fuel1 fuel2,
+  (0 < nprocs)%nat -> (par_enough_fuel tasks univ sel nprocs <= fuel1)%nat -> (enough_fuel tasks univ sel <= fuel2)%nat ->
+  let par := run_parallel tasks wr1 cr1 true always proc fuel1 nprocs sched sel in
+  let ser := run_serial tasks wr2 cr2 true always fuel2 sel in
+  snd par = 4 \/ snd ser = 4 \/
+  ((forall x e, is_final_ev x e = true -> (In (PE e) (fst par) <-> In e (fst ser))) /\
+   (forall x, active tasks always sel x <-> exists e, is_final_ev x e = true /\ In (PE e) (fst par) /\ In e (fst ser)) /\
+   snd par = snd ser /\ snd ser <= 2).
+Proof. exact parallel_serial_same_whole_outcome. Qed.
+Print Assumptions C08_parallel_serial_same_whole_outcome.
+
+(* non-vacuity (ParLiveEx.exl, selection [0; 3]; 0 depends on 1 and 2, 1 FAILS and is not selected; 3 has the
+   setup-task 4 and the calc_dep 5 whose values add the task_dep 1): the table is finite and acyclic; both runs end
+   with exit code 2; the failure of the non-selected task 1 and the successes of the non-selected 2 and 5 are in
+   both; the setup-task 4 is reported in neither (3's first verdict is `unmet dependency`, not `run`) *)
+Example C08_whole_outcome_nonvacuous :
+  finite_table exl [0; 1; 2; 3; 4; 5] /\ (forall k, ~ reach exl k k) /\
+  snd exl_par = 2 /\ snd exl_ser = 2 /\
+  In (PE (EFailure 1 kind_failed)) (fst exl_par) /\ In (EFailure 1 kind_failed) (fst exl_ser) /\
+  In (PE (ESuccess 2)) (fst exl_par) /\ In (ESuccess 2) (fst exl_ser) /\
+  In (PE (ESuccess 5)) (fst exl_par) /\ In (ESuccess 5) (fst exl_ser) /\
+  existsb (pfinal 4) (fst exl_par) = false /\ existsb (is_final_ev 4) (fst exl_ser) = false.
+Proof. exact whole_outcome_nonvacuous. Qed.
+(* ... and what the theorem makes of it: 1 and 5 are active, 4 is not -- a statement about the table alone *)
+Example C08_whole_outcome_active :
+  active exl false [0; 3] 1 /\ active exl false [0; 3] 5 /\ ~ active exl false [0; 3] 4.
+Proof. exact whole_outcome_active. Qed.
+
+(* STILL NOT COVERED: the order of the reports and the non-final events (execute / teardown / DB writes) are not
+   compared (they differ between runs by design); runs that are cut short -- no --continue and a failure, an
+   interrupt (exit code 4), a cyclic table -- are only covered by C08_*_reported_iff_active when they happen to
+   have reported every selected task; delayed task creation is not part of this dispatcher model. *)
